@@ -1808,10 +1808,11 @@ static void vi(void)
 		vi_wfix();
 		if (mod)
 			xcol = vi_off2col(xb, xrow, xoff);
-		if (xcol >= xleft + xcols)
-			xleft = xcol - xcols / 2;
-		if (xcol < xleft)
-			xleft = xcol < xcols ? 0 : xcol - xcols / 2;
+		n = ren_cursor(lbuf_get(xb, xrow), xcol);	/* where the cursor is drawn */
+		if (n >= xleft + xcols)
+			xleft = n - xcols / 2;
+		if (n < xleft)
+			xleft = n < xcols ? 0 : n - xcols / 2;
 		if (mod & VC_OK && vi_fixleft != xleft)	/* drawn with another xleft */
 			mod |= VC_WIN;
 		vi_wait();
